@@ -10,6 +10,7 @@ import (
 	"sort"
 	"strings"
 	"sync"
+	"sync/atomic"
 	"time"
 
 	"golang.org/x/tools/go/packages"
@@ -158,6 +159,7 @@ type Job struct {
 	Cube        int               `json:"cube,omitempty"`            // number of nonlinear polynomials to case-split by sign
 	NoCover     bool              `json:"no_cover,omitempty"`
 	NoKnown     bool              `json:"no_known,omitempty"`        // skip known-finding obligations (their presence is established by witness replay)
+	FineLattice bool              `json:"fine_lattice,omitempty"`    // also search the dyadic lattice k/2^22, |k| <= 8 for counterexamples (tolerances show only at small scales)
 	CoverKey    string            `json:"cover_key,omitempty"`       // cover witnesses are replayed natively once per (harness, label, cover key)
 	SymBudget   int               `json:"sym_budget_s,omitempty"`    // wall-clock budget of the symbolic execution of this job (default 900 s; the 4M-term budget is the primary guard)
 	IntBound    int64             `json:"int_bound,omitempty"`       // bound of the integer re-query that makes a model replayable (default 2^20)
@@ -213,6 +215,14 @@ type JobResult struct {
 	Inputs    int
 	TermNodes int
 	B1        *B1Report
+	Blocks    map[string]*BlockCov `json:",omitempty"`
+}
+
+// BlockCov: which SSA basic blocks of a repository function some path of the job reached
+type BlockCov struct {
+	Total int
+	Seen  []bool
+	Pos   []string
 }
 
 type pendingQuery struct {
@@ -220,6 +230,9 @@ type pendingQuery struct {
 	script    string
 	intScript string
 	intSmall  string
+	dyScript  string
+	intFine   string // the formula over the fine dyadic lattice k/2^22, |k| <= 8 (sat only)
+	unknowns  *int32 // shared per job
 	noRetry   bool
 	nlsat     bool
 	getvals   []string // names for values
@@ -399,6 +412,31 @@ func (r *Runner) symExec(job *Job, jr *JobResult) (paths []pathResult, err error
 		for f := range in.funcsSeen {
 			funcs[f] = true
 		}
+		for b := range in.blocksSeen {
+			fn := b.Parent()
+			if fn == nil || !in.b1IsRepo(fn) {
+				continue
+			}
+			name := strings.ReplaceAll(fn.String(), "github.com/tidwall/geojson", "geojson")
+			if jr.Blocks == nil {
+				jr.Blocks = map[string]*BlockCov{}
+			}
+			bc := jr.Blocks[name]
+			if bc == nil {
+				bc = &BlockCov{Total: len(fn.Blocks), Seen: make([]bool, len(fn.Blocks)), Pos: make([]string, len(fn.Blocks))}
+				for i, bb := range fn.Blocks {
+					for _, ins := range bb.Instrs {
+						if ins.Pos().IsValid() {
+							p := in.prog.Fset.Position(ins.Pos())
+							bc.Pos[i] = fmt.Sprintf("%s:%d", filepath.Base(p.Filename), p.Line)
+							break
+						}
+					}
+				}
+				jr.Blocks[name] = bc
+			}
+			bc.Seen[b.Index] = true
+		}
 		pending = append(pending, in.pending...)
 		paths = append(paths, pathResult{decisions: in.decisions, obligs: in.obligs, inputs: in.inputs, traces: in.traces})
 	}
@@ -432,6 +470,7 @@ func (r *Runner) runJob(job Job) *JobResult {
 		trn []string
 	}
 	coverGroups := map[string][]coverQ{}
+	jobUnknowns := new(int32)
 	for _, p := range paths {
 		var getT []*Term
 		var names []string
@@ -507,7 +546,7 @@ func (r *Runner) runJob(job Job) *JobResult {
 				res.combOff = len(getT) + len(traceT)
 			}
 			script := Script([]*Term{ob.Formula}, ScriptOpts{GetValues: gv})
-			q := &pendingQuery{res: res, script: script, getvals: names, timeout: timeout, kind: ob.Kind, nlsat: job.Nlsat}
+			q := &pendingQuery{res: res, script: script, getvals: names, timeout: timeout, kind: ob.Kind, nlsat: job.Nlsat, unknowns: jobUnknowns}
 			if ob.Kind == "cover" && q.timeout > 30 {
 				q.timeout = 30
 			}
@@ -524,8 +563,15 @@ func (r *Runner) runJob(job Job) *JobResult {
 					ib = job.IntBound
 				}
 				q.intScript = Script([]*Term{ob.Formula}, ScriptOpts{GetValues: gv, IntVars: iv, IntBound: ib})
+				if ob.Kind != "cover" && job.IntBound == 0 {
+					// last resort for a replayable model: dyadic rationals k / 2^50 with |k| <= 2^52
+					q.dyScript = Script([]*Term{ob.Formula}, ScriptOpts{GetValues: gv, IntVars: iv, IntBound: 1 << 52, IntScale: 50})
+				}
 				if !job.NoLattice {
 					q.intSmall = Script([]*Term{ob.Formula}, ScriptOpts{GetValues: gv, IntVars: iv, IntBound: 8})
+				}
+				if job.FineLattice && ob.Kind != "cover" {
+					q.intFine = Script([]*Term{ob.Formula}, ScriptOpts{GetValues: gv, IntVars: iv, IntBound: 8, IntScale: 22})
 				}
 			}
 			nTr := len(traceN)
@@ -604,7 +650,18 @@ func (r *Runner) dispatch(q *pendingQuery, nTraces int, traceNames []string) {
 }
 
 func (r *Runner) solveOne(q *pendingQuery, traceNames []string) {
-	sr, _ := portfolio(q.script, q.intSmall, q.timeout, q.noRetry, q.nlsat)
+	// fail fast: once several queries of one job have timed out, the rest of that job's queries are not attempted
+	// (the job is inconclusive either way; a mutated tree can make hundreds of path queries slow at once)
+	if q.unknowns != nil && atomic.LoadInt32(q.unknowns) >= 6 {
+		q.res.Status = "unknown"
+		q.res.Solver = "not-attempted"
+		q.res.Detail = "not attempted: 6 queries of this job already timed out"
+		return
+	}
+	sr, _ := portfolio(q.script, q.intSmall, q.timeout, q.noRetry, q.nlsat, q.intFine)
+	if q.unknowns != nil && sr.status != "sat" && sr.status != "unsat" {
+		atomic.AddInt32(q.unknowns, 1)
+	}
 	if sr.status == "error" {
 		q.res.Detail = firstLines(sr.raw, 3)
 	}
@@ -623,6 +680,15 @@ func (r *Runner) solveOne(q *pendingQuery, traceNames []string) {
 			if sr3.status == "sat" {
 				if m3, ok3 := extractModel(sr3, q.getvals); ok3 {
 					model, ok, sr = m3, true, sr3
+				}
+			}
+			if !ok && q.dyScript != "" {
+				sr4 := runSolver(q.dyScript, q.timeout, solverBin)
+				q.res.Ms += sr4.ms
+				if sr4.status == "sat" {
+					if m4, ok4 := extractModel(sr4, q.getvals); ok4 {
+						model, ok, sr = m4, true, sr4
+					}
 				}
 			}
 		}
